@@ -633,3 +633,36 @@ def r_nosort(db, rep):
                         rep.viol("%s#reorders-input:%s" % (c.qn, g.qn), g.nloc(n),
                                  "%s is on the build path of order-preserving kind %s (%s) and calls %s: IDs would no longer be lexicographic ranks" % (
                                      g.qn, k, " -> ".join(db.chain(clo, fid)[-3:]), callee_name(n)), g.qn)
+
+
+@rule("R-GROW", 9, "growable buffers: the capacity guard in front of an append re-tests after growing (a `while`, not an `if`): one "
+                   "doubling need not make room for the appended extent")
+def r_grow(db, rep):
+    for f in sorted(db.funcs.values(), key=lambda x: (x.file, x.line)):
+        if f.file.startswith("libcds/"):
+            continue
+        for n in f.calls():
+            if callee_name(n) != "Reallocate":
+                continue
+            rep.visit(f)
+            # the statement `cap = Reallocate(&buf, cap)` and its controlling construct
+            ctl = None
+            for a in f.ancestors(n):
+                if a["k"] in ("WhileStmt", "IfStmt", "ForStmt", "DoStmt"):
+                    ctl = a
+                    break
+            buf = None
+            a0 = strip(n["args"][0])
+            if a0["k"] == "UnaryOperator" and a0["op"] == "&":
+                buf = access_path(f, a0["sub"])
+            cap = access_path(f, n["args"][1]) if len(n["args"]) > 1 else None
+            bname = strip(a0["sub"]).get("n", "?") if a0["k"] == "UnaryOperator" else "?"
+            rep.inst(f.nloc(n), "%s grows %s under %s" % (f.qn, bname, ctl["k"] if ctl else "no guard"))
+            rep.ob()
+            if ctl is None:
+                continue
+            mentions_cap = cap is not None and any(access_path(f, x) == cap for x in walk(ctl["cond"]) if x["k"] in ("DeclRefExpr", "MemberExpr"))
+            if ctl["k"] == "IfStmt" and mentions_cap:
+                rep.viol("%s#if-guard:%s" % (f.qn, bname), f.nloc(ctl),
+                         "%s guards the growth of %s with `if`: after one doubling the buffer may still be too small for what is appended "
+                         "next (small initial capacity, long bucket): heap overflow during construction" % (f.qn, bname), f.qn)
